@@ -239,7 +239,10 @@ pub fn run_pipeline(kind: Kind, text: &str, through_real_entry: bool) -> Result<
 }
 
 /// Runs inside the worker process. Returns {"applied": bool, "result": "ok..."|"err..."}
-pub fn worker(_sub: &str, v: Value) -> Value {
+pub fn worker(sub: &str, v: Value) -> Value {
+    if sub == "C19.extra" {
+        return worker_extra(v);
+    }
     let c: FaultCase = serde_json::from_value(v).expect("case decodes");
     let kind = kind_of(&c.file);
     let text = TEXTS.with(|t| t.borrow_mut().entry(c.file.clone()).or_insert_with(|| read_text(&c.file)).clone());
@@ -259,6 +262,72 @@ pub fn worker(_sub: &str, v: Value) -> Value {
     match run_pipeline(kind, &damaged, real) {
         Ok(s) => json!({"applied": true, "result": "ok", "detail": s, "trivial": trivial}),
         Err(e) => json!({"applied": true, "result": "err", "detail": e.chars().take(160).collect::<String>(), "trivial": trivial}),
+    }
+}
+
+/// The damaged KyGananciasSolares.txt / NewBDL_O.tbl next to its intact project, through the export tool's
+/// library entry (collect_hulc_data with both result files enabled), in the worker process.
+fn worker_extra(v: Value) -> Value {
+    let c: FaultCase = serde_json::from_value(v).expect("case decodes");
+    let kind = kind_of(&c.file);
+    let text = TEXTS.with(|t| t.borrow_mut().entry(c.file.clone()).or_insert_with(|| read_text(&c.file)).clone());
+    let eol = if text.contains("\r\n") { "\r\n" } else { "\n" };
+    let lines: Vec<&str> = text.split(eol).collect();
+    let damaged = if c.edit == "intact" { Some(text.clone()) } else { apply_edit(&lines, eol, &c, kind) };
+    let damaged = match damaged {
+        Some(d) => d,
+        None => return json!({"applied": false}),
+    };
+    let src = Path::new(&c.file).parent().expect("project directory");
+    let dir = Path::new("/verif/target/tmp/c19x").join(format!("p{}", std::process::id()));
+    let _ = std::fs::remove_dir_all(&dir);
+    std::fs::create_dir_all(&dir).expect("scratch directory");
+    let lat = |s: &str| -> Vec<u8> { s.chars().map(|ch| if (ch as u32) < 256 { ch as u8 } else { b'?' }).collect() };
+    for e in std::fs::read_dir(src).expect("project directory lists").flatten() {
+        let p = e.path();
+        let name = p.file_name().unwrap().to_string_lossy().to_string();
+        let lower = name.to_lowercase();
+        if p.to_string_lossy() == c.file {
+            std::fs::write(dir.join(&name), lat(&damaged)).expect("write damaged file");
+        } else if lower.ends_with(".ctehexml") || lower.ends_with(".tbl") || lower == "kygananciassolares.txt" {
+            std::fs::copy(&p, dir.join(&name)).expect("copy project file");
+        }
+    }
+    let trivial = {
+        let l = lines.get(c.line).map(|s| s.trim()).unwrap_or("");
+        l.is_empty()
+    };
+    let r = hulc2model::collect_hulc_data(dir.to_string_lossy(), true, true);
+    let _ = std::fs::remove_dir_all(&dir);
+    match r {
+        Ok(m) => json!({"applied": true, "result": "ok", "detail": format!("model walls={} overrides={}", m.walls.len(), m.overrides.walls.len() + m.overrides.windows.len()), "trivial": trivial}),
+        Err(e) => json!({"applied": true, "result": "err", "detail": format!("{}", e).chars().take(160).collect::<String>(), "trivial": trivial}),
+    }
+}
+
+fn check_extra(h: &CaseH, c: &FaultCase) -> Verdict {
+    let kind = kind_of(&c.file);
+    let kname = format!("{:?}", kind);
+    match worker_call("C19.extra", c, Duration::from_secs(60)) {
+        WorkerOut::Ok(v) => {
+            if v["applied"] == json!(false) {
+                h.class(&format!("{}/edit-not-applicable", kname));
+                return Verdict::Pass;
+            }
+            let r = v["result"].as_str().unwrap_or("");
+            h.class(&format!("{}/{}/{}", kname, c.edit, r));
+            if v["trivial"] != json!(true) {
+                h.nontrivial(fnv64(format!("x|{}|{}|{}", c.file, c.line, c.edit).as_bytes()));
+            }
+            h.sample(|| json!({"case": c, "outcome": v}));
+            Verdict::Pass
+        }
+        WorkerOut::Panic(p) => Verdict::Fail {
+            sig: format!("C19:extra:{}", p.signature()),
+            what: format!("collect_hulc_data(dir, true, true) with {} line {} edit {}: panic at {}:{} in {}: {}", short(&c.file), c.line + 1, c.edit, p.file, p.line, p.func, p.msg.lines().next().unwrap_or("")),
+        },
+        WorkerOut::Hang => Verdict::fail(format!("C19:extra:hang:{:?}", kind), format!("{} line {} edit {}: no answer within 60 s", short(&c.file), c.line + 1, c.edit)),
+        WorkerOut::Died(s) => Verdict::fail(format!("C19:extra:process-died:{:?}", kind), format!("{} line {} edit {}: worker died ({})", short(&c.file), c.line + 1, c.edit, s)),
     }
 }
 
@@ -295,7 +364,7 @@ fn short(p: &str) -> &str {
 
 pub fn run(args: &Args) -> ! {
     let ctx = Ctx::new("C19", "fault_enumeration", args);
-    ctx.rule("fault enumeration: for every shipped project file (.ctehexml, legacy .cte, KyGananciasSolares.txt, NewBDL_O.tbl; located by glob at run time) and every line: delete / duplicate / truncate-after / first number -> abc, 1e39, -1, NaN / rename the quoted name / delete the enclosing block; plus the intact file. thorough = every line; quick = a seeded 1/48 slice of the lines of every file plus one line of every distinct attribute key and block type per file kind (all edit kinds on each chosen line). Each damaged text goes through parse (+ LIDER catalogue merge) + Model::try_from (kyg/tbl: parse) in a worker process under a 60 s watchdog: Ok or Err passes, panic / hang / process death is a violation, one per distinct panic signature (file + function + masked message). Non-trivial: the damaged line is neither blank nor a comment.");
+    ctx.rule("fault enumeration: for every shipped project file (.ctehexml, legacy .cte, KyGananciasSolares.txt, NewBDL_O.tbl; located by glob at run time) and every line: delete / duplicate / truncate-after / first number -> abc, 1e39, -1, NaN / rename the quoted name / delete the enclosing block; plus the intact file. thorough = every line; quick = a seeded 1/48 slice of the lines of every file plus one line of every distinct attribute key and block type per file kind (all edit kinds on each chosen line). extra_files: the same edits of every KyGananciasSolares.txt / NewBDL_O.tbl that lies next to a project (thorough: every line, quick: a seeded 1/6 slice), placed with the intact project file in a scratch directory and read through hulc2model::collect_hulc_data(dir, true, true). Each damaged text goes through parse (+ LIDER catalogue merge) + Model::try_from (kyg/tbl: parse) in a worker process under a 60 s watchdog: Ok or Err passes, panic / hang / process death is a violation, one per distinct panic signature (file + function + masked message). Non-trivial: the damaged line is neither blank nor a comment.");
     ctx.assume("the LIDER catalogue is decoded once per worker and merged per case exactly as parse_with_catalog does; 1 case in 64 goes through the real parse_with_catalog as a cross-check");
     ctx.replay_regressions(replay_one);
     let files = corpus();
@@ -365,6 +434,43 @@ pub fn run(args: &Args) -> ! {
     order.sort_by_key(|i| mix(ctx.seed(), "order", *i as u64));
     let cases: Vec<FaultCase> = order.into_iter().map(|i| cases[i].clone()).collect();
     ctx.run_enum("faults", &cases, ctx.tier() == Tier::Thorough, check_case);
+    // the result files next to their project, through the export tool's library entry
+    let mut xcases: Vec<FaultCase> = vec![];
+    let xdenom: u64 = ctx.tier().pick(6, 1);
+    for f in &files {
+        let path = f.to_string_lossy().to_string();
+        let kind = kind_of(&path);
+        if !(kind == Kind::Kyg || kind == Kind::Tbl) {
+            continue;
+        }
+        // only next to a project file
+        let has_project = f.parent().map_or(false, |d| !files_with_ext(d, &["ctehexml"]).is_empty());
+        if !has_project {
+            continue;
+        }
+        xcases.push(FaultCase { file: path.clone(), line: 0, edit: "intact".into() });
+        let text = read_text(&path);
+        let eol = if text.contains("\r\n") { "\r\n" } else { "\n" };
+        for i in 0..text.split(eol).count() {
+            if xdenom != 1 && mix(ctx.seed(), &format!("x{}", path), i as u64) % xdenom != 0 {
+                continue;
+            }
+            for e in EDITS {
+                xcases.push(FaultCase { file: path.clone(), line: i, edit: e.to_string() });
+            }
+        }
+    }
+    let mut order: Vec<usize> = (0..xcases.len()).collect();
+    order.sort_by_key(|i| mix(ctx.seed(), "xorder", *i as u64));
+    let xcases: Vec<FaultCase> = order.into_iter().map(|i| xcases[i].clone()).collect();
+    ctx.note(format!("{} result-file cases", xcases.len()));
+    ctx.run_enum("extra_files", &xcases, ctx.tier() == Tier::Thorough, check_extra);
+    for k in ["Kyg", "Tbl"] {
+        ctx.require_class(&format!("extra_files/{}/intact/ok", k));
+    }
+    if ctx.tier() == Tier::Thorough {
+        fuzz_campaigns(&ctx, &files);
+    }
     for k in ["Ctehexml", "Cte"] {
         ctx.require_class(&format!("faults/{}/delete-line/err", k));
     }
@@ -374,6 +480,115 @@ pub fn run(args: &Args) -> ! {
     ctx.finish()
 }
 
+/// thorough only: coverage-guided byte-level campaigns over the same pipelines (many simultaneous edits,
+/// arbitrary bytes), seeded with generated small projects and shipped files
+fn fuzz_campaigns(ctx: &Ctx, files: &[PathBuf]) {
+    use crate::fuzz::{self, Campaign};
+    use crate::gen::building;
+    ctx.rule("fuzz:* (thorough): libFuzzer campaigns (16 processes x fixed -runs, -seed derived from the seed, fresh corpus) over bdl_text (Latin-1 text -> Data::new + catalogue + Model::try_from), ctehexml_text (UTF-8 text -> ctehexml::parse + catalogue + Model::try_from) and aux_text (KyGananciasSolares / NewBDL_O.tbl parsers); starting corpus = generated buildings printed as BDL / .ctehexml plus the smallest shipped files; dictionary = identifiers of the shipped files; oracle inside the target: Ok or Err passes, a panic (other than an open known finding), a hang (60 s, confirmed alone at 180 s) or process death is a violation. Non-trivial: the input got past the parser (parsed / kyg-ok / tbl-ok).");
+    if !fuzz::build(ctx) {
+        return;
+    }
+    let blds = fuzz::sample_values(&building::bld(), 24, ctx.seed(), "C19/fuzz-seeds");
+    let systems = building::shipped_systems_sections();
+    let mut by_size: Vec<(u64, &PathBuf)> = files.iter().map(|p| (std::fs::metadata(p).map(|m| m.len()).unwrap_or(0), p)).collect();
+    by_size.sort();
+    let latin1 = |s: &str| -> Vec<u8> { s.chars().map(|c| if (c as u32) < 256 { c as u8 } else { b'?' }).collect() };
+    let shipped = |kind: Kind, n: usize| -> Vec<(String, String)> {
+        by_size
+            .iter()
+            .filter(|(_, p)| kind_of(&p.to_string_lossy()) == kind)
+            .take(n)
+            .map(|(_, p)| (short(&p.to_string_lossy()).to_string(), read_text(&p.to_string_lossy())))
+            .collect()
+    };
+    let all_texts = |kind: Kind| -> Vec<String> { files.iter().filter(|p| kind_of(&p.to_string_lossy()) == kind).take(12).map(|p| read_text(&p.to_string_lossy())).collect() };
+    // bdl_text
+    let mut seeds: Vec<(String, Vec<u8>)> = blds.iter().enumerate().map(|(i, b)| (format!("generated-{}", i), latin1(&building::print_bdl(b)))).collect();
+    seeds.extend(shipped(Kind::Cte, 2).into_iter().map(|(n, t)| (n, latin1(&t))));
+    let dict = fuzz::tokens_of(&all_texts(Kind::Cte), 500);
+    fuzz::run(
+        ctx,
+        &Campaign {
+            sub: "fuzz:bdl_text",
+            target: "bdl_text",
+            sig_prefix: "C19:",
+            procs: 16,
+            runs_per_proc: 60_000,
+            max_len: 120_000,
+            only_ascii: false,
+            seeds,
+            dict,
+            timeout_s: 60,
+            nontrivial_classes: &["parsed"],
+        },
+    );
+    // ctehexml_text
+    let mut seeds: Vec<(String, Vec<u8>)> = blds
+        .iter()
+        .enumerate()
+        .map(|(i, b)| {
+            let sys = if systems.is_empty() || i % 3 == 0 { vec![] } else { vec![systems[i % systems.len()].clone()] };
+            (format!("generated-{}", i), building::print_ctehexml(b, &sys).into_bytes())
+        })
+        .collect();
+    seeds.extend(shipped(Kind::Ctehexml, 2).into_iter().map(|(n, t)| (n, t.into_bytes())));
+    let dict = fuzz::tokens_of(&all_texts(Kind::Ctehexml), 700);
+    fuzz::run(
+        ctx,
+        &Campaign {
+            sub: "fuzz:ctehexml_text",
+            target: "ctehexml_text",
+            sig_prefix: "C19:",
+            procs: 16,
+            runs_per_proc: 60_000,
+            max_len: 200_000,
+            only_ascii: false,
+            seeds,
+            dict,
+            timeout_s: 60,
+            nontrivial_classes: &["parsed"],
+        },
+    );
+    // aux_text: first byte selects the parser
+    let mut seeds: Vec<(String, Vec<u8>)> = vec![];
+    for (n, t) in shipped(Kind::Kyg, 3) {
+        let mut b = vec![0u8];
+        b.extend(latin1(&t));
+        seeds.push((n, b));
+    }
+    for (n, t) in shipped(Kind::Tbl, 3) {
+        let mut b = vec![1u8];
+        b.extend(latin1(&t));
+        seeds.push((n, b));
+    }
+    let mut texts = all_texts(Kind::Kyg);
+    texts.extend(all_texts(Kind::Tbl));
+    let dict = fuzz::tokens_of(&texts, 300);
+    fuzz::run(
+        ctx,
+        &Campaign {
+            sub: "fuzz:aux_text",
+            target: "aux_text",
+            sig_prefix: "C19:",
+            procs: 16,
+            runs_per_proc: 400_000,
+            max_len: 30_000,
+            only_ascii: false,
+            seeds,
+            dict,
+            timeout_s: 60,
+            nontrivial_classes: &["kyg-ok", "tbl-ok"],
+        },
+    );
+    for c in ["fuzz:bdl_text/converted", "fuzz:ctehexml_text/converted", "fuzz:aux_text/kyg-ok", "fuzz:aux_text/tbl-ok", "fuzz:bdl_text/parse-error"] {
+        ctx.require_class(c);
+    }
+}
+
 pub fn replay_one(ctx: &Ctx, doc: &ReplayDoc) {
+    if doc.sub == "extra_files" {
+        return crate::engine::replay_case::<FaultCase>(ctx, &doc.sub, &doc.case, check_extra);
+    }
     crate::engine::replay_case::<FaultCase>(ctx, &doc.sub, &doc.case, check_case)
 }
